@@ -113,6 +113,16 @@ def run_windows(W, cfg):
             wc = optics.centre_window(Nc, Pc)
             want = [[full[i, j] if (wr[0] <= i <= wr[1] and wc[0] <= j <= wc[1]) else 0 for j in range(Nc)] for i in range(Nr)]
             W.ob(f'window {Pr}x{Pc} samples = full-period samples inside, 0 outside', part, W.array(want))
+    # windows chosen by an output mask (its bounding box), nested or not, of either parity on either grid parity:
+    # the same samples inside, zero outside
+    rects = [(r0, r1, c0, c1) for r0 in range(Nr) for r1 in range(r0, Nr) for c0 in range(Nc) for c1 in range(c0, Nc)
+             if ((r1 - r0 + 1) % 2 == 0 or (c1 - c0 + 1) % 2 == 0) and (r1 - r0 + 1, c1 - c0 + 1) != (Nr, Nc)]
+    for (r0, r1, c0, c1) in rects[::max(1, len(rects) // 10)]:
+        om = rnp.zeros((Nr, Nc), dtype=int)
+        om[r0:r1 + 1, c0:c1 + 1] = 1
+        part = lt.propagate_dft(w, pixelscale=du, shape=(Nr, Nc), oversample=1, mask=om).intensity
+        want = [[full[i, j] if (r0 <= i <= r1 and c0 <= j <= c1) else 0 for j in range(Nc)] for i in range(Nr)]
+        W.ob(f'mask window rows {r0}..{r1} cols {c0}..{c1} = full-period samples inside, 0 outside', part, W.array(want))
     # non-negativity: every sample is |field|^2 (C07 discharges intensity = |field|^2); the lemma x^2 + y^2 >= 0 is discharged here
     x, y = W.real('lemma_x'), W.real('lemma_y')
     W.ob_true('lemma: re^2 + im^2 >= 0', x * x + y * y >= 0)
